@@ -125,8 +125,15 @@ pub fn generate(seed: u64, tier: Tier, count: u64, out: &str) -> std::io::Result
             // decoder cases on damaged streams
             5..=8 => {
                 let opts: Opts = sample(&opts_strategy(1 << 16, true), s ^ 1);
-                let data = sample(&longdist, s ^ 2).expand();
                 let which = r.below(4);
+                // LZMA2: half of the cases use match-dense data (a short match every ~30 bytes at distances up to
+                // 70 000, so that direct distance bits are frequent) for the chunk cut sweep
+                let dense = which == 1 && r.below(2) == 0;
+                let data = if dense {
+                    Data { segs: vec![Seg::Mixed { len: 8000 + r.below(40_000) as u32, seed: s ^ 7 }] }.expand()
+                } else {
+                    sample(&longdist, s ^ 2).expand()
+                };
                 let (decoder, stream): (&str, Vec<u8>) = match which {
                     0 => ("lzma1", encode_lzma(&data, &opts, None, &Framing::RawEos, &Plan::All).unwrap_or_default()),
                     1 => ("lzma2", encode_lzma(&data, &opts, None, &Framing::Lzma2 { chunk: None }, &Plan::All).unwrap_or_default()),
@@ -138,6 +145,26 @@ pub fn generate(seed: u64, tier: Tier, count: u64, out: &str) -> std::io::Result
                 };
                 let mut m = stream.clone();
                 tags.push("error_path");
+                // LZMA2: every other case cuts one chunk to 48 different lengths
+                let mut cuts_case: Option<Value> = None;
+                if decoder == "lzma2" && dense {
+                    let w = walk_lzma2(&stream);
+                    let lz: Vec<_> = w.chunks.iter().filter(|c| c.control >= 0x80 && c.packed > 16).collect();
+                    if !lz.is_empty() {
+                        let c = lz[r.below(lz.len() as u64) as usize];
+                        // a contiguous run of cut lengths: every decoder state along a stretch of the chunk
+                        let span = (c.packed - 7) as u64;
+                        let n = span.min(tier.pick(512, 2048));
+                        let first = 1 + r.below(span - n + 1);
+                        let cuts: Vec<u64> = (first..first + n).collect();
+                        tags.push("chunk_cut_sweep");
+                        // small reads: a reader that fails drops what it decoded in the failing call, so only
+                        // small reads show where exactly two builds stop
+                        let rs = [1u64, 1, 3, 7][r.below(4) as usize];
+                        cuts_case = Some(json!({"id": id, "kind": "dec", "decoder": "lzma2", "dict": opts.dict_size, "read_size": rs,
+                            "chunk": {"off": c.offset, "hdr": c.header_len, "packed": c.packed}, "cuts": cuts, "stream": hex(&stream)}));
+                    }
+                }
                 match r.below(5) {
                     0 | 1 if decoder == "lzma2" => {
                         if let Some(x) = shorten_chunk(&stream, r.below(1000) as usize, 1 + r.below(8) as usize) {
@@ -163,9 +190,13 @@ pub fn generate(seed: u64, tier: Tier, count: u64, out: &str) -> std::io::Result
                 }
                 let rs = [65_536u64, 4096, 7, 1][r.below(4) as usize];
                 let multi = r.below(2) == 0;
-                json!({"id": id, "kind": "dec", "decoder": decoder, "dict": opts.dict_size, "size": u64::MAX,
-                       "params": {"lc": opts.lc, "lp": opts.lp, "pb": opts.pb}, "multi": multi,
-                       "read_size": rs, "stream": hex(&m)})
+                if let Some(c) = cuts_case {
+                    c
+                } else {
+                    json!({"id": id, "kind": "dec", "decoder": decoder, "dict": opts.dict_size, "size": u64::MAX,
+                           "params": {"lc": opts.lc, "lp": opts.lp, "pb": opts.pb}, "multi": multi,
+                           "read_size": rs, "stream": hex(&m)})
+                }
             }
             // normalisation differential
             _ => {
